@@ -57,7 +57,7 @@ func (m *FixPeriodPlanner) Process(ctx *shared.PlannerContext,
 		defer close(res)
 		for entries := range _in {
 			for _, entry := range entries {
-				if entry.Fingerprint != fingerprint {
+				if values == nil || entry.Fingerprint != fingerprint {
 					exportEntries()
 					fingerprint = entry.Fingerprint
 					values = make([]float64, (_to-_from)/ctx.Step.Nanoseconds()+1)
